@@ -3394,7 +3394,34 @@ func (r *Run) recordedIndexProver(fn *ssa.Function, e ast.Expr) (string, bool) {
 		if !ok || ia.Pos() != ie.Lbrack {
 			continue
 		}
-		mk, ok := viaCell(unwrap(ia.X)).(*ssa.MakeSlice)
+		// a helper that is handed both lists (`placeResponses(results, indexes, resps)`): read
+		// its parameters as what its one call site passes
+		atCaller := func(v ssa.Value) ssa.Value {
+			v = viaCell(unwrap(v))
+			p, ok := v.(*ssa.Parameter)
+			if !ok {
+				return v
+			}
+			pf := p.Parent()
+			idx := -1
+			for i, q := range pf.Params {
+				if q == p {
+					idx = i
+				}
+			}
+			var site ssa.CallInstruction
+			for _, e := range r.P.CG.In[pf] {
+				if e.Kind != "static" || site != nil {
+					return v
+				}
+				site = e.Site
+			}
+			if site == nil || idx < 0 || idx >= len(site.Common().Args) {
+				return v
+			}
+			return viaCell(unwrap(site.Common().Args[idx]))
+		}
+		mk, ok := atCaller(ia.X).(*ssa.MakeSlice)
 		if !ok {
 			return "", false
 		}
@@ -3478,7 +3505,7 @@ func (r *Run) recordedIndexProver(fn *ssa.Function, e ast.Expr) (string, bool) {
 				okList = false
 			}
 		}
-		walk(src.X)
+		walk(atCaller(src.X))
 		if !okList || len(elems) == 0 {
 			return "", false
 		}
